@@ -331,7 +331,12 @@ func (r *router) AddRealm(config *RealmConfig) error {
 	var err error
 	sync := make(chan struct{})
 	if !r.post(func() {
-		_, err = r.addRealm(config)
+		if r.closed {
+			// Close has already shut down all the realms.
+			err = errors.New("router is closed")
+		} else {
+			_, err = r.addRealm(config)
+		}
 		close(sync)
 	}) {
 		return errors.New("router is closed")
